@@ -297,6 +297,22 @@ def threading_event(I, args, kwargs):
     return fresh_abstract(I, "threading.Event", isset=False)
 
 
+def math_isclose(I, args, kwargs):
+    """math.isclose(a, b, *, rel_tol=1e-09, abs_tol=0.0) for finite numbers (its documented definition, over reals):
+    abs(a-b) <= max(rel_tol * max(abs(a), abs(b)), abs_tol)"""
+    a, b = I.num_operand(args[0]), I.num_operand(args[1])
+    rel = I.num_operand(kwargs.get("rel_tol", 1e-09))
+    ab = I.num_operand(kwargs.get("abs_tol", 0.0))
+    for v in (a, b, rel, ab):
+        if not I.ctx.branch(Z.is_finite(v.t), "isclose-finite") :
+            raise Unsupported("math.isclose with a non-finite argument")
+    x, y, r, t = Z.rval(a.t), Z.rval(b.t), Z.rval(rel.t), Z.rval(ab.t)
+    absx, absy, d = z3.If(x >= 0, x, -x), z3.If(y >= 0, y, -y), z3.If(x - y >= 0, x - y, y - x)
+    m = z3.If(absx >= absy, absx, absy)
+    bound = z3.If(r * m >= t, r * m, t)
+    return SV(Z.mk_bool(d <= bound), TBool())
+
+
 def threading_semaphore(I, args, kwargs):
     """threading.Semaphore(n) / BoundedSemaphore(n) / Lock(): a blocking primitive - acquire() may block the calling thread"""
     return fresh_abstract(I, "threading.Semaphore")
@@ -394,11 +410,14 @@ def asyncio_current_task(I, args, kwargs):
 
 
 def install(E):
-    E.external_result_types.update({"threading.Semaphore": "threading.Semaphore", "threading.BoundedSemaphore": "threading.Semaphore", "threading.Event": "threading.Event"})
+    # blocking primitives stored in attributes a contract's shape does not describe: acquiring one may block the calling thread
+    E.external_result_types.update({"threading.Semaphore": "threading.Semaphore", "threading.BoundedSemaphore": "threading.Semaphore", "threading.Event": "threading.Event",
+                                    "threading.RLock": "threading.Semaphore", "threading.Lock": "threading.Semaphore", "threading.Condition": "threading.Semaphore"})
     E.externals.update({"trio.lowlevel.current_trio_token": trio_current_token, "trio.open_memory_channel": trio_open_memory_channel,
                         "trio.open_nursery": trio_open_nursery, "trio.run": trio_run, "asyncio.sleep": asyncio_sleep,
                         "threading.Event": threading_event, "asyncio.Event": asyncio_event, "asyncio.get_event_loop": asyncio_get_event_loop,
                         "threading.Thread": threading_thread, "asyncio.run_coroutine_threadsafe": run_coroutine_threadsafe, "trio.from_thread.run": trio_from_thread_run,
                         "asyncio.current_task": asyncio_current_task, "trio.sleep": trio_sleep, "str.__mod__": str_mod, "logging.getLogger": get_logger,
-                        "threading.Semaphore": threading_semaphore, "threading.BoundedSemaphore": threading_semaphore,
+                        "threading.Semaphore": threading_semaphore, "threading.BoundedSemaphore": threading_semaphore, "threading.RLock": threading_semaphore,
+                        "math.isclose": math_isclose,
                         "asyncio.run": asyncio_run, "asyncio.shield": asyncio_shield, "asyncio.gather": asyncio_gather})
